@@ -75,6 +75,8 @@ def h_capture(sx):
                 # (e.g. a module logging at import time): loggers cache that answer until some setLevel() call
                 root.setLevel(logging.ERROR)
                 logging.getLogger("harness").isEnabledFor(logging.WARNING)
+            if p.get("root_level_notset"):
+                root.setLevel(logging.NOTSET)       # "no level of its own" (0) is a level to restore like any other
             if p.get("root_level_as_capture"):
                 root.setLevel(logging.INFO)         # the application's level happens to be the capture level
             states["user-level"] = root.level
@@ -252,6 +254,7 @@ def jobs(tier, seed):
     shapes["level-notset"] = ([F([S(2), S(1)])], {"out_dom": {"*": [0, 1]}, "undef": False, "log_markers_at_info": True})
     shapes["stale-level-cache"] = ([F([S(2), S(1)])], {"out_dom": {"*": [0, 1]}, "undef": False})
     shapes["switch-off-midrun"] = ([F([S(1), S(2)])], {"out_dom": {"*": [0, 1]}, "undef": False})
+    shapes["root-notset"] = ([F([S(2), S(1)])], {"out_dom": {"*": [0, 1]}, "undef": False})
     shapes["level-changed-in-step"] = ([F([S(2), S(1)])], {"out_dom": {"*": [0, 1]}, "undef": False})
     shapes["nested"] = ([F([S(2), S(1)])], {"out_dom": {"*": [0, 1]}, "nested_steps": ["f0.i0.0", "f0.i1.0"], "undef": False})
     for name, (sh, opts) in shapes.items():
@@ -260,6 +263,7 @@ def jobs(tier, seed):
                           {"shapes": sh, "opts": opts, "fault": name == "hookfault", "clear_handlers": clear,
                            "log_filter": "other,-harness.fill" if name == "filter" else None, "stale_level_cache": name == "stale-level-cache", "capture_level_notset": name == "level-notset",
                            "switch_off_before_second": name == "switch-off-midrun",
+                           "root_level_notset": name == "root-notset",
                            "root_level_as_capture": name == "level-changed-in-step", "step_hook_changes_root_level": name == "level-changed-in-step"},
                           reach=[REACH[0], REACH[3]] if name == "switch-off-midrun" else REACH if name != "hookfault" else REACH[:3],
                           min_paths=4 if name == "switch-off-midrun" else 20, cost=100, validate=60))
